@@ -151,7 +151,7 @@ def make_twin_file(template, unit):
         body = vgen.apply_truncate(fn, body, meta)
         body = vgen.unsplice(body, table)
         sig = '\n'.join(fn['sig'])
-        out.append(sig + '\n{\n' + '\n'.join(fn['pre']) + '\n' + body + '\n}\n')
+        out.append(sig + '\n{\n' + '\n'.join(fn['pre']) + '\n' + body + '\n' + '\n'.join(fn['post']) + '\n}\n')
         if fn['opts'].get('twin', 'yes') == 'no':
             continue
         # twin: rename + replace ensures
@@ -161,7 +161,7 @@ def make_twin_file(template, unit):
         e = re.search(r'\bensures\b', tsig)
         tsig = (tsig[:e.start()] if e else tsig.rstrip()) + '\n    ensures false,\n'
         start = sum(x.count('\n') + 1 for x in out) + 1
-        ttext = tsig + '{\n' + '\n'.join(fn['pre']) + '\n' + body + '\n}\n'
+        ttext = tsig + '{\n' + '\n'.join(fn['pre']) + '\n' + body + '\n' + '\n'.join(fn['post']) + '\n}\n'
         out.append(ttext)
         twins.append(dict(id=fn['id'], name=name + '__twin', gen_line_start=start, gen_line_end=start + ttext.count('\n')))
     path = os.path.join(BUILD, unit + '_twin.rs')
